@@ -18,6 +18,9 @@ GHOST_LOG_DEFS
 #include "src/lib/hash/bundled/sha1/sha1.c"
 #include "src/lib/hash/bundled/sha2/sha2.c"
 
+#ifndef LEMMA_BLOCKS
+#define LEMMA_BLOCKS 2      /* messages of up to LEMMA_BLOCKS blocks + 9 bytes */
+#endif
 typedef struct { unsigned len, split; size_t k2; } IN_lm;
 V_INPUT(IN_lm)
 
@@ -34,36 +37,36 @@ V_INPUT(IN_lm)
 
 void h_lemma_sha256(void) {
     IN_lm in = nondet_IN_lm();
-    V_ASSUME(in.len <= 2 * 64 + 9 && in.split <= in.len);
-    unsigned char *m = malloc(2 * 64 + 9); V_ASSUME(m != NULL);   /* fixed-size object: over-reads are the update units' obligation */
+    V_ASSUME(in.len <= LEMMA_BLOCKS * 64 + 9 && in.split <= in.len);
+    unsigned char *m = malloc(LEMMA_BLOCKS * 64 + 9); V_ASSUME(m != NULL);   /* fixed-size object: over-reads are the update units' obligation */
     sha256_ctx *c = malloc(sizeof(*c)); V_ASSUME(c != NULL);
     unsigned char *d = malloc(SHA256_DIGEST_SIZE); V_ASSUME(d != NULL);
     g_log_n = 0; g_k2 = in.k2;
     sha256_init(c); sha256_update(c, m, in.split); sha256_update(c, m + in.split, in.len - in.split); sha256_final(c, d);
     LEMMA_CHECK("sha256", 64, 8, 8, SPEC_SHA256_IV, 32, 4, uint32_t)
-    V_COVER(in.len == 55 && N == 1); V_COVER(in.len == 56 && N == 2); V_COVER(in.len == 137 && N == 3 && in.split == 70); V_COVER(in.len == 0);
+    V_COVER(in.len == 55 && N == 1); V_COVER(in.len == 56 && N == 2); V_COVER(in.len == LEMMA_BLOCKS * 64 + 9 && N == LEMMA_BLOCKS + 1 && in.split == 60); V_COVER(in.len == 0);
 }
 void h_lemma_sha512(void) {
     IN_lm in = nondet_IN_lm();
-    V_ASSUME(in.len <= 2 * 128 + 9 && in.split <= in.len);
-    unsigned char *m = malloc(2 * 128 + 9); V_ASSUME(m != NULL);
+    V_ASSUME(in.len <= LEMMA_BLOCKS * 128 + 9 && in.split <= in.len);
+    unsigned char *m = malloc(LEMMA_BLOCKS * 128 + 9); V_ASSUME(m != NULL);
     sha512_ctx *c = malloc(sizeof(*c)); V_ASSUME(c != NULL);
     unsigned char *d = malloc(SHA512_DIGEST_SIZE); V_ASSUME(d != NULL);
     g_log_n = 0; g_k2 = in.k2;
     sha512_init(c); sha512_update(c, m, in.split); sha512_update(c, m + in.split, in.len - in.split); sha512_final(c, d);
     LEMMA_CHECK("sha512", 128, 16, 8, SPEC_SHA512_IV, 64, 8, uint64_t)
-    V_COVER(in.len == 111 && N == 1); V_COVER(in.len == 112 && N == 2); V_COVER(in.len == 265 && N == 3 && in.split == 130); V_COVER(in.len == 0);
+    V_COVER(in.len == 111 && N == 1); V_COVER(in.len == 112 && N == 2); V_COVER(in.len == LEMMA_BLOCKS * 128 + 9 && N == LEMMA_BLOCKS + 1 && in.split == 120); V_COVER(in.len == 0);
 }
 void h_lemma_sha1(void) {
     IN_lm in = nondet_IN_lm();
-    V_ASSUME(in.len <= 2 * 64 + 9 && in.split <= in.len);
-    sha1_byte *m = malloc(2 * 64 + 9); V_ASSUME(m != NULL);
+    V_ASSUME(in.len <= LEMMA_BLOCKS * 64 + 9 && in.split <= in.len);
+    sha1_byte *m = malloc(LEMMA_BLOCKS * 64 + 9); V_ASSUME(m != NULL);
     SHA_CTX *c = malloc(sizeof(*c)); V_ASSUME(c != NULL);
     sha1_byte *d = malloc(SHA1_DIGEST_LENGTH); V_ASSUME(d != NULL);
     g_log_n = 0; g_k2 = in.k2;
     SHA1_Init(c); SHA1_Update(c, m, in.split); SHA1_Update(c, m + in.split, in.len - in.split); SHA1_Final(d, c);
     LEMMA_CHECK("sha1", 64, 8, 5, SPEC_SHA1_IV, 20, 4, uint32_t)
-    V_COVER(in.len == 55 && N == 1); V_COVER(in.len == 56 && N == 2); V_COVER(in.len == 137 && N == 3 && in.split == 70); V_COVER(in.len == 0);
+    V_COVER(in.len == 55 && N == 1); V_COVER(in.len == 56 && N == 2); V_COVER(in.len == LEMMA_BLOCKS * 64 + 9 && N == LEMMA_BLOCKS + 1 && in.split == 60); V_COVER(in.len == 0);
 }
 #ifdef VERIF_NATIVE
 #include "replay_in.h"
